@@ -59,6 +59,7 @@ DoWindow == StepOf("window")      DoJoin == StepOf("join")
 DoAppend == StepOf("append")
 DoExclude == StepOf("exclude")
 DoFromLit == StepOf("fromlit")
+DoLoop == StepOf("loop")
 \* SurplusArg / UnknownNamedArg / ScalarAsRelation / RelationAsScalar
 DoBad == StepOf("bad")
 
@@ -102,7 +103,7 @@ Failure ==
 
 TNext == \/ Database \/ Reset \/ DeclLet \/ DeclFunc
          \/ DoFrom \/ DoSelect \/ DoDerive \/ DoFilter \/ DoSort \/ DoTake
-         \/ DoAggregate \/ DoGroup \/ DoWindow \/ DoJoin \/ DoAppend \/ DoExclude \/ DoFromLit \/ DoBad
+         \/ DoAggregate \/ DoGroup \/ DoWindow \/ DoJoin \/ DoAppend \/ DoExclude \/ DoFromLit \/ DoLoop \/ DoBad
          \/ Observe \/ CompileError \/ Failure
 
 TraceSpec == TInit /\ [][TNext]_vars
